@@ -59,6 +59,19 @@ CHECKS = {
          "scheduler/in-memory transport; TLC. Bounded: 2 connections x histories of length 6-7, 2-3 racing clients, preemption bound 2.",
     technique="TLA+/PlusCal spec + TLC; TLC-generated histories replayed into a real daemon; schedule exploration; TLC trace validation (monitor)",
     ref="6/C09"),
+ "C03": dict(
+    category="model_checking",
+    text="ClientCall.tla models one proxy (sequence counter modulo M, release-on-error, retry loop) against an adversary that picks a fault for "
+         "every attempt; TLC checks ReturnOwn / ExecBound / ReturnedRanOnce / Recovery, and shows that each of the proxy's two defences is "
+         "needed. TLC enumerates fault scripts (call kind x fault x sticky, length <=3, plus random walks in the thorough tier); a fault layer on "
+         "the client socket of the in-memory transport executes them against a real Proxy and a real Daemon (reply lost, delayed past the "
+         "timeout, cut then EOF/reset, reset before/after processing, stale reply replayed, sequence number altered, reply duplicated; "
+         "MAX_RETRIES 0/1/2; start sequence numbers that wrap the 16-bit counter); TLC validates every recorded run (Trace_Call.tla).",
+    note="Trusted: the fault layer (acts on the reply of the attacked call only), the in-memory transport, per-token execution counters in the "
+         "target object, TLC. Not generated: a replay of a reply exactly 65536 requests old (indistinguishable by protocol design); stream "
+         "fetches (covered under C10).",
+    technique="TLA+ spec + TLC; TLC-generated fault scripts replayed into the real proxy/daemon; TLC trace validation (monitor)",
+    ref="6/C03"),
 }
 NOT_YET = {}
 ALL = ["C%02d" % i for i in range(1, 21)]
